@@ -187,6 +187,7 @@ inline std::string apply_setter(size_t k, S& s, Ctx& ctx, e::engine_schema schem
     {
         try
         {
+            vfshim::CallScope in_library_call;
             fn();
         }
         catch (const std::exception& ex)
